@@ -555,3 +555,72 @@ def check_error_discipline(env, rep, rule):
                           "the Result of %s in %s is never inspected (a read error would be ignored)" % (nm, b.pretty), t["span"])
     rep.floor(rule, "error edges of read calls in the AMF0 decoder", n, 8)
     rep.floor(rule + ".local", "error edges of the decoder's own fallible functions", n_local, 5)
+
+
+# ---------------------------------------------------------------------------------------------- what the encoder refuses
+def check_encoder_refusals(env, rep, rule):
+    """The encoder may refuse (return an error it builds itself) only what AMF0 cannot express: a string or property name longer
+    than 65,535 bytes, and - for property names only - the empty name, whose length field is the object terminator.  Every other
+    value must be encoded.  Decided per variant on every error path of the dispatch (helpers followed in place): the state at the
+    end of the path must have narrowed some byte length to > 65535 (any variant with a string in it) or to exactly 0 (Object only);
+    an error handed up from the nested value's own encoding or from the io layer is not a refusal of this value."""
+    prog = env.prog
+    sv = body_by_pretty(prog, "serialization::serialize_value")
+    ak, adt = value_adt(prog)
+    if sv is None or adt is None:
+        rep.anchor_missing(rule, "rml_amf0 serialization::serialize_value / enum Amf0Value")
+        return
+    vparam = None
+    for i in range(1, sv.arg_count + 1):
+        t = sv.locals[i]["t"]
+        if t.get("k") == "ref" and t["to"].get("adt") == ak:
+            vparam = i
+    if vparam is None:
+        rep.anchor_missing(rule, "the Amf0Value parameter of serialize_value")
+        return
+
+    def probe(it, S):
+        too_long = empty = False
+        for x, d in list(S.doms.items()):
+            if isinstance(x, tuple) and x[0] == "ld" and x[1][1] and x[1][1][-1] == ("len",):
+                if d.lo > 65535:
+                    too_long = True
+                if d.hi == 0:
+                    empty = True
+        return ("lens", too_long, empty)
+    n = 0
+    for vi, v in enumerate(adt["variants"]):
+        base = env.ctx.entries.get(sv.key)
+        E = base.copy() if base is not None else State()
+        pv = ("ld", (("L", vparam, sv.key), ()), "entry")
+        E.doms[("discr", ("ld", (("P", pv), ()), "entry"))] = Dom(vi, vi)
+        ex = grammar.Extractor(env, sv.key, "w", E, None)
+        ex.inline = True
+        ex.inline_depth = 4
+        ex.inline_blocks = 60
+        ex.inline_pred = lambda cb, t: not cb.pretty.endswith("serialize_value")
+        ex.all_local_calls = True
+        ex.probe = probe
+        ex.run()
+        if ex.truncated:
+            rep.cannot_analyse(rule, "refusals:%s" % v["name"], "too many paths through the encoder of Amf0Value::%s" % v["name"], sv.span)
+            continue
+        kinds = {}
+        for p in ex.paths:
+            rets = [t for t in p if t[0] == "returns"]
+            text = rets[-1][1] if rets else ""
+            if not text.startswith("Err("):
+                continue            # success, or an error handed up from a callee (nested value / io layer) by `?`
+            pr = [t for t in p if t[0] == "probe"]
+            _, too_long, empty = pr[-1][1] if pr else ("lens", False, False)
+            kind = "longer-than-65535" if too_long else "empty" if empty else "other"
+            kinds.setdefault(kind, text[:80])
+        n += 1
+        allowed = {"longer-than-65535"} | ({"empty"} if v["name"] == "Object" else set())
+        badk = {k: t for k, t in kinds.items() if k not in allowed}
+        rep.check(rule, "refusals:%s" % v["name"], not badk,
+                  "Amf0Value::%s is refused only for %s" % (v["name"], sorted(kinds) or "nothing"),
+                  "the encoder refuses an Amf0Value::%s on a path where %s (error %s): every value AMF0 can express must be encoded - only lengths above 65,535 bytes%s may be refused" % (
+                      v["name"], {"empty": "a byte length is 0 - an empty string is a legal value (02 00 00)", "other": "no length was found to be out of range"}.get(next(iter(badk), ""), ""),
+                      next(iter(badk.values()), ""), " and the empty property name" if v["name"] == "Object" else ""), sv.span)
+    rep.floor(rule, "Amf0Value variants whose refusals were classified", n, 7)
